@@ -167,8 +167,11 @@ static bool parse_seq(const std::string& s, Seq& q) {
 static int C_EVAL, C_DISTINCT, C_ITEMS;
 static int W_SWAP_SC, W_NOSWAP_SC, W_ARR_SWAP, W_ARR_NOSWAP, W_ARR_EMPTY, W_BYTEARR, W_SWITCH, W_DEFAULT_ORD, W_NAN, W_STR, W_LSTR, W_A100, W_L64, W_MINMAX;
 // observed while running (not derived from the input): a zero here means the family never happened
-static int W_CHAR, W_PARTIAL_RD, W_PARTIAL_WR, W_NONBLOCK, W_SELF, W_SELF_MOVED, W_GROW_SMALL, W_GROW_BIG, W_FILE_FLUSH, W_LSTR_FILLED, W_LSTR_HEAP,
-	W_PRE_OPEN, W_REOPEN, W_HANDLE2, W_BLOCK_RD, W_REST_RD, W_SKIP;
+static int W_CHAR, W_PARTIAL_RD, W_PARTIAL_WR, W_NONBLOCK, W_SELF, W_LSTR_FILLED,
+	W_PRE_OPEN, W_REOPEN, W_HANDLE2, W_BLOCK_RD, W_REST_RD, W_SKIP, W_BIGITEM, W_LONGFILE;
+// observations that depend on block sizes of the library / of stdio (realloc from 2048 bytes on, 4096-byte stdio buffer, inline capacity of
+// String): reported as obs.* for the reader of the evidence, NOT witnesses: a library with other block sizes may leave them at zero
+static int O_SELF_MOVED, O_GROW_SMALL, O_GROW_BIG, O_FILE_FLUSH, O_LSTR_HEAP;
 enum { NLOCAL = 128 };
 struct Local { uint64_t v[NLOCAL]; Local() { memset(v, 0, sizeof v); } void flush() { for (int i = 0; i < NLOCAL; i++) if (v[i]) { vf::add(i, v[i]); v[i] = 0; } } };
 static Local L;
@@ -297,7 +300,7 @@ static void lstr_target(asl::String& x, int var) {
 	if (var) CNT(W_LSTR_FILLED);
 }
 static void lstr_result(const asl::String& x, int n, std::string& out) {
-	if (x._size != 0) CNT(W_LSTR_HEAP);
+	{ const char* c = *x; if (c < (const char*)&x || c >= (const char*)(&x + 1)) CNT(O_LSTR_HEAP); } // characters outside the object: not the inline storage
 	if (x.length() != n) { out = fmt("<String of length %d>", x.length()); return; }
 	out.assign(*x, strlen(*x)); // as a C string: the terminator must sit right after the n bytes (the payload never contains NUL)
 }
@@ -319,6 +322,16 @@ template <class R> static void read_item(R& r, const Item& it, std::string& out,
 	}
 	else if (it.kind == LSTRING) r_lstr(r, out, it);
 	else r_bytes(r, it.n, out);
+}
+
+// The byte order of an object on which none was ever set is not fixed by the statement. It is taken from the library by a probe (one
+// 16-bit value through a fresh object of each kind and shape, at start-up); sequences that start in that order leave it unset.
+// D_*: the Ord a fresh object is in. When the probe shows the host order, the documented name of it is used (LITTLE for the buffer classes,
+// NATIVE for File and Socket).
+static int D_BUFW = O_LITTLE, D_BUFR = O_LITTLE, D_FILE[3] = { O_NATIVE, O_NATIVE, O_NATIVE }, D_MEM = O_NATIVE, D_PAIR = O_NATIVE;
+static int probe_ord(const std::string& got, int documented) { // got = what `<< (unsigned short)0x0102` produced
+	bool big = got == std::string("\x01\x02", 2);
+	return big == HOST_BIG ? documented : (HOST_BIG ? O_LITTLE : O_BIG);
 }
 
 // in-memory socket: subclass of the real Socket_ (DESIGN §3.4); the stream operators of Socket go through these virtuals
@@ -410,15 +423,15 @@ static void run_buf(const Prepared& P, const std::string& kase) {
 	const Seq& q = P.seq;
 	CNT(C_EVAL);
 	bool bytes_ok = true, ex = extras(q);
-	asl::StreamBuffer* sbp = q[0].ord == O_LITTLE ? new asl::StreamBuffer() : new asl::StreamBuffer(ORDASL[q[0].ord]); // LITTLE is the documented default
-	if (q[0].ord == O_LITTLE) CNT(W_DEFAULT_ORD);
+	asl::StreamBuffer* sbp = q[0].ord == D_BUFW ? new asl::StreamBuffer() : new asl::StreamBuffer(ORDASL[q[0].ord]); // D_BUFW: the order a fresh buffer is in (LITTLE as documented)
+	if (q[0].ord == D_BUFW) CNT(W_DEFAULT_ORD);
 	asl::StreamBuffer& sb = *sbp;
 	for (size_t i = 0; i < q.size(); i++) {
 		if (i && q[i].ord != q[i - 1].ord) sb.setEndian(ORDASL[q[i].ord]);
-		int cap0 = sb.d().s; const asl::byte* blk0 = sb._a; // allocated size and block before the write (observation only)
+		int len0 = sb.length(); const asl::byte* blk0 = sb.data(); // length and block before the write (observation only, public accessors)
 		write_item(sb, q[i].it, P.nat[i]); check_arg("buf", P, i, kase);
-		if (sb.d().s != cap0) { if (cap0 >= 2048) CNT(W_GROW_BIG); else CNT(W_GROW_SMALL); } // reserve() reallocs in place of malloc+copy from 2048 bytes on
-		if (q[i].it.kind == SELF) { CNT(W_SELF); if (sb._a != blk0) CNT(W_SELF_MOVED); }
+		if (sb.data() != blk0) { if (len0 >= 2048) CNT(O_GROW_BIG); else CNT(O_GROW_SMALL); } // the block moved: the buffer grew (today reserve() reallocs in place of malloc+copy from 2048 bytes on)
+		if (q[i].it.kind == SELF) { CNT(W_SELF); if (sb.data() != blk0) CNT(O_SELF_MOVED); }
 		if (bytes_ok && (size_t)sb.length() != P.off[i]) { bytes_ok = false; report_len("buf", P, i, sb.length(), kase); }
 	}
 	if (asan_check("buf", "writing", kase)) bytes_ok = false;
@@ -428,13 +441,13 @@ static void run_buf(const Prepared& P, const std::string& kase) {
 	std::string got;
 	// (1) reader over the StreamBuffer's own content, operator>>
 	if (bytes_ok) {
-		asl::StreamBufferReader* rp = q[0].ord == O_LITTLE ? new asl::StreamBufferReader(*sb) : new asl::StreamBufferReader(*sb, ORDASL[q[0].ord]);
+		asl::StreamBufferReader* rp = q[0].ord == D_BUFR ? new asl::StreamBufferReader(*sb) : new asl::StreamBufferReader(*sb, ORDASL[q[0].ord]);
 		asl::StreamBufferReader& r = *rp;
 		for (size_t i = 0; i < q.size(); i++) {
 			if (i && q[i].ord != q[i - 1].ord) r.setEndian(ORDASL[q[i].ord]);
 			read_item(r, q[i].it, got, M_OP);
 			if (got != P.nat[i]) { report_value("buf", "StreamBufferReader(ByteArray) >>", P, i, got, kase); break; }
-			if (i + 1 == q.size() && (r.length() != 0 || (bool)r)) report_rest("buf", "StreamBufferReader(ByteArray)", r.length(), kase);
+			if (i + 1 == q.size() && r.length() != 0) report_rest("buf", "StreamBufferReader(ByteArray)", r.length(), kase); // every byte consumed; what bool(r) says at the end is not demanded
 		}
 		delete rp;
 		asan_check("buf", "reading with operator>>", kase);
@@ -454,7 +467,7 @@ static void run_buf(const Prepared& P, const std::string& kase) {
 			if (mode == M_SKIP && !last) { r.skip((int)item_bytes(P, i)); CNT(W_SKIP); continue; }
 			read_item(r, q[i].it, got, mode == M_SKIP ? M_OP : mode, last);
 			if (got != P.nat[i]) { report_value("buf", fmt("StreamBufferReader(ptr,n) %s", HOW[mode]).c_str(), P, i, got, kase); break; }
-			if (last && (r.length() != 0 || (bool)r)) report_rest("buf", fmt("StreamBufferReader(ptr,n) %s", HOW[mode]).c_str(), r.length(), kase);
+			if (last && r.length() != 0) report_rest("buf", fmt("StreamBufferReader(ptr,n) %s", HOW[mode]).c_str(), r.length(), kase);
 		}
 		free(blk);
 		asan_check("buf", fmt("reading with %s", HOW[mode]).c_str(), kase);
@@ -479,15 +492,15 @@ static asl::File* file_open(int shape, asl::File::OpenMode mode, int ord, bool w
 	bool ok;
 	if (shape == SH_PRE || shape == SH_DEF) {
 		f = shape == SH_PRE ? new asl::File(path) : new asl::File();
-		if (ord != O_NATIVE) { f->setEndian(ORDASL[ord]); CNT(W_PRE_OPEN); }
+		if (ord != D_FILE[shape]) { f->setEndian(ORDASL[ord]); CNT(W_PRE_OPEN); }
 		ok = shape == SH_PRE ? f->open(mode) : f->open(path, mode);
 	}
 	else {
 		f = new asl::File(path, mode);
 		ok = (bool)*f;
-		if (ord != O_NATIVE) f->setEndian(ORDASL[ord]);
+		if (ord != D_FILE[SH_CTOR]) f->setEndian(ORDASL[ord]);
 	}
-	if (ord == O_NATIVE && writing) CNT(W_DEFAULT_ORD); // NATIVE is File's default
+	if (ord == D_FILE[shape == SH_PRE || shape == SH_DEF ? shape : SH_CTOR] && writing) CNT(W_DEFAULT_ORD); // the order a fresh File is in (NATIVE as documented) is left unset
 	if (!ok) { fprintf(stderr, "c16: cannot open scratch file %s\n", g_path.c_str()); _exit(2); }
 	return f;
 }
@@ -504,7 +517,7 @@ static void run_file(const Prepared& P, const std::string& kase, int shape) {
 			if (i && q[i].ord != q[i - 1].ord) f.setEndian(ORDASL[q[i].ord]);
 			write_item(f, q[i].it, P.nat[i]); check_arg("file", P, i, kase);
 			if (bytes_ok && shape != SH_RE && (size_t)f.position() != P.off[i]) { bytes_ok = false; report_len("file", P, i, (long)f.position(), kase); }
-			if (P.off[i] > 4096 && shape != SH_RE) { struct stat st; if (fstat(fileno(f.stdio()), &st) == 0 && st.st_size > 0) CNT(W_FILE_FLUSH); } // stdio emptied its buffer in mid-stream
+			if (P.off[i] > 4096 && shape != SH_RE) { if (i + 1 == q.size()) CNT(W_LONGFILE); struct stat st; if (fstat(fileno(f.stdio()), &st) == 0 && st.st_size > 0) CNT(O_FILE_FLUSH); } // stdio emptied its buffer in mid-stream (depends on its buffer size)
 		}
 		delete fp; // destructor closes
 	}
@@ -528,7 +541,7 @@ static void run_file(const Prepared& P, const std::string& kase, int shape) {
 			if (i + 1 == q.size()) {
 				long pos = (long)f.position();
 				char c; int k = f.read(&c, 1);
-				if (pos != (long)P.exp.size() || k != 0 || !f.end()) report_rest("file", "File", (long)P.exp.size() - pos, kase);
+				if (pos != (long)P.exp.size() || k > 0) report_rest("file", "File", (long)P.exp.size() - pos, kase); // every byte consumed and none beyond; what read() returns and end() says at the end of the file is not demanded
 			}
 		}
 		delete fp;
@@ -547,7 +560,7 @@ static void run_mem(const Prepared& P, const std::string& kase, int shape) {
 		asl::Socket w(new MemSocket_(0, &pipe));
 		asl::Socket w2 = w;
 		asl::Socket& ws = shape == SH_H2 ? w2 : w;
-		if (q[0].ord != O_NATIVE) { ws.setEndian(ORDASL[q[0].ord]); if (shape == SH_H2) CNT(W_HANDLE2); } else CNT(W_DEFAULT_ORD);
+		if (q[0].ord != D_MEM) { ws.setEndian(ORDASL[q[0].ord]); if (shape == SH_H2) CNT(W_HANDLE2); } else CNT(W_DEFAULT_ORD);
 		for (size_t i = 0; i < q.size(); i++) {
 			if (i && q[i].ord != q[i - 1].ord) { ws.setEndian(ORDASL[q[i].ord]); if (shape == SH_H2) CNT(W_HANDLE2); }
 			write_item(w, q[i].it, P.nat[i]); check_arg("mem", P, i, kase);
@@ -563,7 +576,7 @@ static void run_mem(const Prepared& P, const std::string& kase, int shape) {
 		asl::Socket r(new MemSocket_(&pipe, 0));
 		asl::Socket r2 = r;
 		asl::Socket& rs = shape == SH_H2 ? r2 : r;
-		if (q[0].ord != O_NATIVE) rs.setEndian(ORDASL[q[0].ord]);
+		if (q[0].ord != D_MEM) rs.setEndian(ORDASL[q[0].ord]);
 		for (size_t i = 0; i < q.size(); i++) {
 			bool last = i + 1 == q.size();
 			if (i && q[i].ord != q[i - 1].ord) rs.setEndian(ORDASL[q[i].ord]);
@@ -593,7 +606,7 @@ static void run_pair(const Prepared& P, const std::string& kase, const Variant& 
 	{
 		asl::Socket w(fd[0]), r(fd[1]); // each Socket_ owns and closes its descriptor
 		if (V.nb) { w.setBlocking(false); r.setBlocking(false); CNT(W_NONBLOCK); }
-		if (q[0].ord != O_NATIVE) { w.setEndian(ORDASL[q[0].ord]); r.setEndian(ORDASL[q[0].ord]); }
+		if (q[0].ord != D_PAIR) { w.setEndian(ORDASL[q[0].ord]); r.setEndian(ORDASL[q[0].ord]); }
 		std::string& got = g_pair_got;
 		got.clear();
 		for (size_t i = 0; i < q.size(); i++) {
@@ -630,6 +643,36 @@ static void run_pair(const Prepared& P, const std::string& kase, const Variant& 
 	asan_check("pair", "reading", kase);
 }
 
+// the order of a fresh object of every kind and shape, from one 16-bit value written (read, for the reader) through it
+static void probe_defaults() {
+	const unsigned short v = 0x0102;
+	{ asl::StreamBuffer sb; sb << v; D_BUFW = probe_ord(std::string((const char*)sb.data(), sb.length()), O_LITTLE); }
+	{ asl::ByteArray b(2); b[0] = 1; b[1] = 2; asl::StreamBufferReader r(b); unsigned short x = 0; r >> x; D_BUFR = x == 0x0102 ? O_BIG : O_LITTLE; }
+	g_path = vf::scratch_dir() + fmt("/c16.probe.%d.bin", (int)getpid());
+	for (int shape = SH_CTOR; shape <= SH_DEF; shape++) {
+		asl::String path = vfx::A(g_path);
+		std::string got;
+		bool ok;
+		if (shape == SH_CTOR) { asl::File f(path, asl::File::WRITE); ok = (bool)f; if (ok) f << v; }
+		else if (shape == SH_PRE) { asl::File f(path); ok = f.open(asl::File::WRITE); if (ok) f << v; }
+		else { asl::File f; ok = f.open(path, asl::File::WRITE); if (ok) f << v; }
+		if (!ok) { fprintf(stderr, "c16: cannot open scratch file %s\n", g_path.c_str()); _exit(2); }
+		slurp(g_path, got);
+		D_FILE[shape] = probe_ord(got, O_NATIVE);
+	}
+	unlink(g_path.c_str()); g_path.clear();
+	{ Pipe pipe; { asl::Socket w(new MemSocket_(0, &pipe)); w << v; } D_MEM = probe_ord(pipe.data, O_NATIVE); }
+	{
+		int fd[2];
+		if (socketpair(AF_UNIX, SOCK_STREAM, 0, fd) != 0) { fprintf(stderr, "c16: socketpair failed\n"); _exit(2); }
+		std::string got;
+		{ asl::Socket w(fd[0]), r(fd[1]); w << v; drain(fd[1], got); }
+		D_PAIR = probe_ord(got, O_NATIVE);
+	}
+	vf::setinfo("fresh_object_order", fmt("\"StreamBuffer %c, StreamBufferReader %c, File %c/%c/%c, Socket %c/%c\"", ORDCH[D_BUFW], ORDCH[D_BUFR], ORDCH[D_FILE[0]], ORDCH[D_FILE[1]], ORDCH[D_FILE[2]], ORDCH[D_MEM], ORDCH[D_PAIR]));
+	if (vf::asan_tripped()) vf::asan_clear(); // the probe is no case: whatever it trips is reported by the cases themselves
+}
+
 static void witnesses(const Prepared& P, int nch) {
 	const Seq& q = P.seq;
 	bool sw = false;
@@ -644,6 +687,7 @@ static void witnesses(const Prepared& P, int nch) {
 			else if (it.ty == U8) CNT(W_BYTEARR);
 			else if (s) CNT(W_ARR_SWAP); else CNT(W_ARR_NOSWAP);
 			if (it.n == 100) CNT(W_A100);
+			if (it.n * TYSIZE[it.ty] >= 2400) CNT(W_BIGITEM);
 		}
 		if ((it.kind == SCALAR || it.kind == ARRAY) && it.n > 0) {
 			if (is_float(it.ty) && (it.pat == P_QNAN || it.pat == P_SNAN || it.pat == P_MIX)) CNT(W_NAN);
@@ -777,13 +821,15 @@ int main(int argc, char** argv) {
 	W_A100 = vf::counter("w.array_len100"); W_L64 = vf::counter("w.sequences_of_64_items");
 	W_CHAR = vf::counter("w.plain_char_items");
 	W_PARTIAL_RD = vf::counter("w.partial_read"); W_PARTIAL_WR = vf::counter("w.partial_write"); W_NONBLOCK = vf::counter("w.nonblocking_socket_cases");
-	W_SELF = vf::counter("w.buffer_written_into_itself"); W_SELF_MOVED = vf::counter("w.self_write_moved_the_block");
-	W_GROW_SMALL = vf::counter("w.buf_growth_below_2048"); W_GROW_BIG = vf::counter("w.buf_growth_from_2048_up");
-	W_FILE_FLUSH = vf::counter("w.file_flushed_in_midstream");
-	W_LSTR_FILLED = vf::counter("w.lstring_read_into_filled_string"); W_LSTR_HEAP = vf::counter("w.lstring_result_on_heap");
+	W_SELF = vf::counter("w.buffer_written_into_itself"); O_SELF_MOVED = vf::counter("obs.self_write_moved_the_block");
+	O_GROW_SMALL = vf::counter("obs.buf_block_moved_below_2048"); O_GROW_BIG = vf::counter("obs.buf_block_moved_from_2048_up");
+	W_BIGITEM = vf::counter("w.items_of_2400_bytes"); W_LONGFILE = vf::counter("w.file_streams_over_4096_bytes");
+	O_FILE_FLUSH = vf::counter("obs.file_flushed_in_midstream");
+	W_LSTR_FILLED = vf::counter("w.lstring_read_into_filled_string"); O_LSTR_HEAP = vf::counter("obs.lstring_result_on_heap");
 	W_PRE_OPEN = vf::counter("w.file_order_set_before_open"); W_REOPEN = vf::counter("w.file_reopened_midstream"); W_HANDLE2 = vf::counter("w.order_set_through_second_handle");
 	W_BLOCK_RD = vf::counter("w.byte_block_reads"); W_REST_RD = vf::counter("w.read_all_remaining"); W_SKIP = vf::counter("w.skips");
 	if (W_SKIP >= NLOCAL) { fprintf(stderr, "c16: too many counters\n"); return 2; }
+	probe_defaults();
 
 	if (vf::opt.replay) {
 		vf::parallel(1, [&](uint64_t) {
